@@ -100,6 +100,38 @@ def run(ctx):  # noqa: C901
     t = ret_last(F(m, "is_anti_hermitian"))
     ok = t is not None and t[0] == "call" and str(t[1]).endswith("is_hermitian") and dict(t[3]).get("mat") in (("*", (("c", "1j"), ("n", "mat"))), ("*", (("n", "mat"), ("c", "1j"))))
     ctx.ob("R-PRED", F(m, "is_anti_hermitian"), "anti-Hermitian == Hermitian(i * mat)", bool(ok), "is_hermitian(1j * mat)" if ok else f"returns {show(t)[:80] if t else '?'}")
+    # pseudo-Hermitian: eta H eta^-1 == H^+ (similarity from the documented side); pseudo-unitary: A^+ J A == J
+    ph = F(m, "is_pseudo_hermitian")
+    t = ret_last(ph)
+    ok = None
+    det = f"returns {show(t)[:100] if t else '?'}"
+    if t is not None and t[0] == "call" and t[1] == "numpy.allclose" and len(t[2]) == 2:
+        inv = ("call", "numpy.linalg.inv", (("n", "signature"),), ())
+        sides = set(map(repr, t[2]))
+        good = [{repr(("@", (("n", "signature"), ("n", "mat"), inv))), repr(("dag", ("n", "mat")))},
+                {repr(("@", (("n", "signature"), ("n", "mat")))), repr(("@", (("dag", ("n", "mat")), ("n", "signature"))))},
+                {repr(("@", (inv, ("dag", ("n", "mat")), ("n", "signature")))), repr(("n", "mat"))}]
+        wrong = [{repr(("@", (inv, ("n", "mat"), ("n", "signature")))), repr(("dag", ("n", "mat")))},
+                 {repr(("@", (("n", "mat"), ("n", "signature")))), repr(("@", (("n", "signature"), ("dag", ("n", "mat")))))}]
+        if sides in good:
+            ok, det = True, "allclose(eta @ H @ inv(eta), H^+)"
+        elif sides in wrong:
+            ok, det = False, "the similarity is applied from the other side (eta^-1 H eta == H^+): the verdict is that of eta^-1, which differs unless eta^2 is a multiple of the identity"
+        elif any("signature" in x for x in sides) and any("dag" in x or "conj" in x for x in sides):
+            ok, det = False, f"compares {[show(x)[:50] for x in t[2]]}: not eta H eta^-1 with H^+"
+    ctx.ob("R-PRED", ph, "pseudo-Hermitian == allclose(eta H eta^-1, H^+)", ok, det, required=ok is not None)
+    pu = F(m, "is_pseudo_unitary")
+    t = ret_last(pu)
+    ok = False
+    if t is not None and t[0] == "call" and t[1] == "numpy.allclose" and len(t[2]) == 2:
+        js = [x for x in t[2] if x[0] == "call" and x[1] == "numpy.diag"]
+        if len(js) == 1:
+            J = js[0]
+            other = [x for x in t[2] if x is not J][0]
+            okj = J[2] and J[2][0][0] == "call" and J[2][0][1] in ("numpy.hstack", "numpy.concatenate") and "('n', 'p')" in repr(J) and "('n', 'q')" in repr(J) and \
+                repr(("neg", ("call", "numpy.ones", (("n", "q"),), ()))) in repr(J) and repr(("call", "numpy.ones", (("n", "p"),), ())) in repr(J)
+            ok = bool(okj and other == ("@", (("dag", ("n", "mat")), J, ("n", "mat"))))
+    ctx.ob("R-PRED", pu, "pseudo-unitary == allclose(A^+ J A, J), J = diag(1 x p, -1 x q)", ok, "A^+ J A compared with J" if ok else f"returns {show(t)[:110] if t else '?'}")
     u = F(m, "matrix_props.is_unitary.is_unitary")
     t = ret_last(u)
     ok = False
@@ -231,6 +263,24 @@ def run(ctx):  # noqa: C901
     two = [Nt(rn.value) for rn, facts in flw.flow(tn.node).returns if rn is not None and isinstance(rn.value, ast.Call) and m.resolve_call(tn, rn.value).key == "numpy.kron"]
     ok2 = bool(two) and all(t[2][0][2] == ("c", 0) and t[2][1][2] == ("c", 1) for t in two if t[2][0][0] == "sub" and t[2][1][0] == "sub")
     ctx.ob("R-LAYOUT", tn, "binary forms are kron(first, second)", ok2, "argument order preserved" if ok2 else "binary form swaps its operands")
+    # n-fold power: the squaring helper yields exactly n tensor factors (exponent counting, see engine/powcount.py)
+    from ..powcount import check_power_by_squaring
+    helpers = [n for n in ast.walk(tn.node) if isinstance(n, ast.FunctionDef) and n is not tn.node]
+    pw_calls = [n for n in walk_no_nested(tn.node) if isinstance(n, ast.Call) and isinstance(n.func, ast.Name) and any(h.name == n.func.id for h in helpers)]
+    if helpers and pw_calls:
+        h = next(h for h in helpers if h.name == pw_calls[0].func.id)
+        okp, detp = check_power_by_squaring(h)
+        ctx.ob("R-ENUM", tn, "tensor(M, n): the repeated-squaring helper multiplies exactly n factors", okp, detp, h, required=okp is not None)
+        c = pw_calls[0]
+        okc = len(c.args) == 2 and unparse(c.args[0]) == "args[0]" and (unparse(c.args[1]) in ("args[1]", "num_tensor"))
+        ctx.ob("R-THREAD", tn, "tensor(M, n) hands (M, n) to the helper", okc, unparse(c)[:50], c)
+    else:
+        loops_ok = None
+        ctx.ob("R-ENUM", tn, "tensor(M, n): the repeated-squaring helper multiplies exactly n factors", loops_ok, "no nested power helper found: the n-fold form is computed some other way", required=False)
+    # n == 0 and n == 1 special cases
+    z = [rn for rn, facts in flw.flow(tn.node).returns if rn is not None and isinstance(rn.value, ast.Call) and m.resolve_call(tn, rn.value).key in ("numpy.eye", "numpy.identity")]
+    okz = bool(z) and all(unparse(r.value.args[0]) == "1" for r in z)
+    ctx.ob("R-ENUM", tn, "tensor(M, 0) is the 1 x 1 identity (empty product)", okz, "np.eye(1)" if okz else "empty product is not the scalar identity")
     # kp_norm
     kp = F(m, "kp_norm")
     Nk = Normalizer(m, kp, inline=True)
